@@ -578,6 +578,13 @@ func propC19(c *Ctx) {
 	rjp := c.Rule("json-panic-typed", "every explicit panic on the json encoding path carries the wrapper that Marshal recovers (anything else reaches the script's caller as a Go panic)", 1)
 	ruleJSONPanicTyped(c, rjp)
 
+	rlp := c.Rule("lock-release-on-panic", "a mutex of the library without a deferred release is held only across calls that cannot panic (no dynamic call, no reachable explicit panic): a recovered panic never leaves an object locked", 15)
+	ruleLockReleaseOnPanic(c, rlp)
+	rle := c.Rule("loop-err-checked", "the error of a call made inside a loop of the library is tested, returned or handed on inside the loop (not overwritten by the next iteration)", 10)
+	ruleLoopErrChecked(c, rle, l.RepoFuncs(func(p string) bool { return isLibPkg(p) }), 10)
+	rls := c.Rule("loop-stutter", "no loop of the library (builtins, value methods, stdlib modules) has an effect-free cycle on which every loop variable keeps its value: such a loop, once on that path, never ends", 1)
+	ruleLoopStutter(c, rls, l.RepoFuncs(func(p string) bool { return isLibPkg(p) }), 100)
+
 	// ---- objimpl / registry ----------------------------------------------------------------------
 	propC19Registry(c)
 }
